@@ -221,6 +221,55 @@ func tlsClientVsCollector(maxVer uint16, want bool) func(*hx.Ctx, int, *pki, boo
 	}
 }
 
+// tlsSequenceOnOneCollector: several exporter configurations connect, one after the other and
+// in this process, to the SAME collector instance (same address). A first exporter that
+// legitimately trusts the collector's CA keeps its session open for a while (so that session
+// tickets are received); later exporters configured with a CA that did not issue the
+// collector's certificate, or expecting another name, must still be refused: nothing
+// learned in an earlier session may replace verification.
+func tlsSequenceOnOneCollector() func(*hx.Ctx, int, *pki, bool) (string, string) {
+	return func(c *hx.Ctx, k int, p *pki, v6 bool) (string, string) {
+		coll, err := lib.StartCollector(collector.CollectorInput{Address: host(v6), Protocol: "tcp", MaxBufferSize: 65535, IsIPv6: v6, IsEncrypted: true,
+			ServerCert: p.srvTrusted.CertPEM, ServerKey: p.srvTrusted.KeyPEM})
+		if err != nil {
+			return "harness", err.Error()
+		}
+		defer coll.Stop(20 * time.Second)
+		connect := func(ca []byte, serverName string, domain uint32) (*exporter.ExportingProcess, error) {
+			return exporter.InitExportingProcess(exporter.ExporterInput{CollectorAddress: coll.Addr(), CollectorProtocol: "tcp", ObservationDomainID: domain, IsIPv6: v6,
+				CheckConnInterval: 20 * time.Millisecond, TLSClientConfig: &exporter.ExporterTLSClientConfig{ServerName: serverName, CAData: ca}})
+		}
+		for round := 0; round < 2; round++ {
+			for _, sn := range []string{"", "collector.test"} {
+				d1 := uint32(0xC1840000 + k*16 + round*4)
+				good, err := connect(p.ca.CertPEM, sn, d1)
+				if err != nil {
+					return "positive-cell-failed", "trusted exporter refused: " + err.Error()
+				}
+				sendOne(good)
+				if got, _ := coll.Wait(d1, 2, posWait); len(got) < 2 {
+					good.CloseConnToCollector()
+					return "positive-cell-failed", "trusted exporter's messages not delivered"
+				}
+				time.Sleep(150 * time.Millisecond) // several connection checks: post-handshake messages are read
+				good.CloseConnToCollector()
+				// now the ones that must be refused, same address, same process
+				if ep, err := connect(p.otherCA.CertPEM, sn, d1+1); err == nil {
+					sendOne(ep)
+					got, _ := coll.Wait(d1+1, 1, negWait)
+					ep.CloseConnToCollector()
+					return "session-with-unverifiable-server", fmt.Sprintf("after an earlier legitimate session to the same collector (ServerName %q), an exporter configured with a CA that did not issue the collector's certificate completed a session (%d messages delivered)", sn, len(got))
+				}
+				if ep, err := connect(p.ca.CertPEM, "wrong.test", d1+2); err == nil {
+					ep.CloseConnToCollector()
+					return "session-with-unverifiable-server", "after an earlier legitimate session, an exporter expecting another server name completed a session"
+				}
+			}
+		}
+		return "", ""
+	}
+}
+
 func plainExporterVsEncryptedCollector(proto string) func(*hx.Ctx, int, *pki, bool) (string, string) {
 	return func(c *hx.Ctx, k int, p *pki, v6 bool) (string, string) {
 		coll, err := lib.StartCollector(collector.CollectorInput{Address: host(v6), Protocol: proto, MaxBufferSize: 65535, IsIPv6: v6, IsEncrypted: true,
@@ -402,6 +451,7 @@ func main() {
 			cells = append(cells, cell{name: fmt.Sprintf("exporter vs tls server max=%#x", v.ver), v6: v6, neg: !v.want, run: exporterVsTLSServer(v.ver, v.want)})
 			cells = append(cells, cell{name: fmt.Sprintf("tls client max=%#x vs collector", v.ver), v6: v6, neg: !v.want, run: tlsClientVsCollector(v.ver, v.want)})
 		}
+		cells = append(cells, cell{name: "tls sequence on one collector: trusted session, then other-CA and wrong-name exporters", v6: v6, neg: true, run: tlsSequenceOnOneCollector()})
 		cells = append(cells, cell{name: "plaintext exporter vs tls collector", v6: v6, neg: true, run: plainExporterVsEncryptedCollector("tcp")})
 		cells = append(cells, cell{name: "plaintext exporter vs dtls collector", v6: v6, neg: true, run: plainExporterVsEncryptedCollector("udp")})
 		cells = append(cells, cell{name: "tls exporter vs plaintext peer", v6: v6, neg: true, run: tlsExporterVsPlainPeer()})
@@ -424,7 +474,7 @@ func main() {
 	}
 	rounds := c.Pick(1, 3) // fresh certificate parameters per round
 	c.Note("cells", len(cells))
-	c.Note("exhaustive", true)
+	c.Note("exhaustive", c.Thorough())
 	from, to := c.Range(len(cells) * rounds)
 	pk := map[[2]int]*pki{}
 	for k := from; k < to; k++ {
